@@ -28,9 +28,10 @@ func processALIGNB(env *Pass1, operands []ast.Exp) {
 	}
 
 	var padding int32 = 0
-	if env.LOC%unit != 0 { // 現在のLOCが境界に揃っていない場合のみ計算
-		nearestSize := (env.LOC + unit - 1) / unit // Calculate next multiple
-		padding = nearestSize*unit - env.LOC
+	// LOC holds an unsigned 32-bit address: above 0x7FFFFFFF it is negative as an int32,
+	// and the remainder has to be taken of the address, not of the negative number
+	if rem := uint32(env.LOC) % uint32(unit); rem != 0 { // 現在のLOCが境界に揃っていない場合のみ計算
+		padding = unit - int32(rem)
 	}
 	env.LOC += padding
 	emitCommand(env, "ALIGNB", []int32{unit})
@@ -252,9 +253,10 @@ func processRESB(env *Pass1, operands []ast.Exp) {
 		log.Printf("Error: RESB size cannot be negative (%d).", size)
 		return
 	}
-	if size > math.MaxInt32-int64(env.LOC) {
-		// the location counter is 32 bits wide; a larger reservation cannot be
-		// addressed (and code generation would try to allocate it)
+	if size > math.MaxInt32 || size > math.MaxUint32-int64(uint32(env.LOC)) {
+		// the location counter is 32 bits wide (an unsigned address kept in an
+		// int32); a reservation that runs past 4 GiB cannot be addressed, and
+		// code generation would try to allocate one of 2 GiB or more
 		log.Printf("error: RESB size %d is too large", size)
 		return
 	}
